@@ -43,7 +43,7 @@ fuzz_target!(|data: &[u8]| {
     }
     let mut r = R(data, 0);
     let c = r.u8();
-    let cfg = Config { ctor: [Ctor::Flags, Ctor::Flags, Ctor::Params, Ctor::Default][(c & 3) as usize], level: ((c >> 2) % 12) as i32 - 1, strategy: (r.u8() % 6) as i32 - 0, zlib: c & 0x40 != 0, wbits: 8 + r.u8() % 8 };
+    let cfg = Config { ctor: [Ctor::Flags, Ctor::Hand, Ctor::Params, Ctor::Default][(c & 3) as usize], level: ((c >> 2) % 12) as i32 - 1, strategy: (r.u8() % 6) as i32 - 0, zlib: c & 0x40 != 0, wbits: 8 + r.u8() % 8, hand: c >> 6 };
     let nseg = 1 + (r.u8() % 5) as usize;
     let mut segs = Vec::new();
     for _ in 0..nseg {
